@@ -517,6 +517,28 @@ class Registry:
         return None
 
     def call_iface(self, it, c: Contract, args, kwargs):
+        # variants of an interface contract (iface:Cls.m@v): chosen when the default's parameter
+        # kinds do not fit the actual arguments (e.g. a list default where `none` is declared)
+        key = getattr(c, "key", c.target)
+        variants = [v for k, v in self.contracts.items() if k.startswith(key + "@")] if "@" not in key else []
+        if variants:
+            def fits(cc):
+                nm = list(cc.params)
+                for n, a in list(zip(nm[1:], args[1:])) + [(n, kwargs[n]) for n in nm if n in kwargs]:
+                    kind = cc.params[n]
+                    d = it.deref(a)
+                    if kind == "none" and not isinstance(d, VNone):
+                        return False
+                    if kind.startswith("list[") and not isinstance(d, VList):
+                        return False
+                    if kind in ("str", "bytes") and not isinstance(d, VStr):
+                        return False
+                return True
+            if not fits(c):
+                for v in variants:
+                    if fits(v):
+                        c = v
+                        break
         names = list(c.params)
         bound = {}
         for n, a in zip(names, args):
